@@ -41,3 +41,22 @@ claim("C18", "other", "goroutine-region analysis with recover frames; panic-obli
       "WithLabelValues arity, Counter.Add sign, in-place Pack alignment) is discharged by a named procedure or reported; WaitGroup Add/Done/Wait pairing; the serve loops exit only on net.ErrClosed; client, target and association sockets are closed on every exit of their owner; "
       "the relay joins its helper goroutine; reader goroutines are cancellable.",
       "Bounds discharge D4 shows a bound exists on every untrusted length, not numeric sufficiency. Not decided: panics inside stdlib/third-party code, nil dereferences, resource exhaustion.", "DESIGN.md §4 C18")
+
+claim("C01", "other", "effect analysis of the pre-authentication call region (call graph) + CFG cut/must-pass queries + loop-shape and value-provenance checks + constant-table agreement",
+      "Decides on all paths and for every key-list shape: no write/close/dial/listen is reachable before the authentication result is known (handler and the whole authenticator call region; every callee effect-free by list, resolved into the repo, or reported) and the failure edge drains first; "
+      "the trial-decryption loops range over the whole snapshot, leave only when exhausted or on Unpack's success edge, and size the ciphertext prefix per key with that key's own salt/tag size; salt+2+tag <= bytesForKeyFinding <= salt+2+2*tag for every SDK cipher spec; "
+      "id, reader/writer keys, salt, generator, replay key and usage mark all derive from the one matched entry; Update replaces the list wholesale.",
+      "Effect-free list and SDK semantics are trusted. Not decided: AEAD correctness, MRU ordering effects, concurrent Update vs lookup results.", "DESIGN.md §4 C01")
+claim("C06", "other", "effect analysis + CFG must-pass-before queries (drain before close) + value provenance of deadlines",
+      "Decides probe-resistance structure on all paths: nothing written/closed/dialed before authentication; every failure point (authentication failure of any status incl. replays, address-read failure, client-to-target copy error) drains the client connection itself, unbounded, before any close; "
+      "the pre-authentication deadline depends only on time.Now, the handler timeout and the context deadline; no deadline change on the failure path and the deadline is cleared only after authentication; no SetLinger; the key finder reads exactly bytesForKeyFinding bytes with io.ReadFull before deciding; "
+      "replay and reflected-salt tests gate success unconditionally.",
+      "Not decided: that the close happens at the deadline within a time bound; FIN vs RST on the wire.", "DESIGN.md §4 C06")
+claim("C07", "other", "who-may-call / value-provenance (single replay history), CFG cut (replay gate), lock-set (single critical section)",
+      "Decides: exactly one replay history is created in the server command, its field is never replaced, and every service of every generation gets a pointer to that very field; every success return of the authenticator is cut by ReplayCache.Add(matched id, this handshake's salt) == true with no bypass, "
+      "the salt being firstBytes[:SaltSize(matched key)]; refused replays take the silent failure path; ReplayCache.Add does lookup, rotation and insert in one critical section.",
+      "Not decided: the most-recent-N arithmetic of rotation and resizing (a seeded change to Resize's archive test is out of reach), the 32-bit collision rate.", "DESIGN.md §4 C07")
+claim("C08", "other", "constant-table agreement, CFG cut/must-pass, who-may-construct, sibling agreement between GetSalt and IsServerSalt",
+      "Decides: the marking generator is selected exactly for salt sizes >= 20 (constants and the SDK's cipher specs); cipher entries are only built by MakeCipherEntry and never modified; every success return has installed the matched entry's generator on the writer the returned connection writes through; "
+      "success is cut by IsServerSalt == false, unconditionally and before the replay history, on firstBytes[:SaltSize(matched key)]; GetSalt/IsServerSalt share the split and tag helpers with the same mark length, compute tags on per-call hash state, and draw randomness from crypto/rand.",
+      "Not decided: pairwise salt uniqueness, HMAC unforgeability.", "DESIGN.md §4 C08")
